@@ -16,4 +16,4 @@ def main(ctx):
     dynamic_check(ctx, invalid=False, total=total, rule=RULE, modelled=MODELLED)
 
 
-MODELLED = False
+MODELLED = True
